@@ -34,6 +34,7 @@ def base_pool():
     d = datetime
     p = [None, True, False,
          0, 0.0, 1, 1.0, -1, 2, 2.0, 0.5, -0.5, 1.5, 1 / 1024, 3, 10, 1e15, 1e16, 123456789012, 0.1, 0.3, 1 / 3, 1e300, -1e300, 5e-324,
+         float('inf'), float('-inf'), [float('inf')], float(2 ** 30), float(2 ** 30 + 1), 1700000000000, 1700000000001.0,
          2 ** 30, 2 ** 30 + 1, 2 ** 53, 1e21, -7.25,
          '', 'a', 'ab', 'b', 'A', 'B', 'aa', '1', '10', '2', ' ', 'é', '\U0001F600', 'null', 'true',
          d.datetime(2024, 1, 1), d.date(2024, 1, 1), d.datetime(2024, 1, 1, 0, 0, 0, 1000), d.datetime(2024, 1, 1, 5, 30, tzinfo=TZ5),
@@ -137,7 +138,7 @@ def consumer_cases(rnd, vals, count):
                     pass
                 elif isinstance(val, int) and abs(val) < 2 ** 53:
                     val = float(val)
-                elif isinstance(val, float) and val == int(val) and abs(val) < 2 ** 53:
+                elif isinstance(val, float) and abs(val) < 2 ** 53 and val == int(val):
                     val = int(val)
                 elif isinstance(val, datetime.datetime) and val.tzinfo is None and not (val.hour or val.minute or val.second or val.microsecond):
                     val = val.date()
